@@ -19,6 +19,14 @@ Monitors
   stream     source and sink endpoints on two devices; operation sequences from the
              initiator (Stream API) and raw signalling commands against the acceptor;
              Stream.state on both ends against the AVDTP state table
+  stream-refuse  the initiator walks LEGAL procedures through the Stream API while the peer REFUSES some (the sink
+             application answers configure / open / start / suspend / close / reconfigure with a reject; the sink is held
+             by ANOTHER local source when configure arrives): the call raises, the LOCAL and the remote state and in_use
+             are unchanged, the same procedure then succeeds, and a whole cycle on the same end-points follows
+SDP results are judged on VALUES as well as bytes: the public fields (type, value, value_size) of every returned
+data element are read into the reference's form and compared with the generated record (a parsed element's bytes are a
+cached copy of what was received); records hold every scalar type x width 1..16 octets at boundary values (signed
+negative / min / max, unsigned max, UUID 16/32/128), directly and nested in sequences and alternatives.
 """
 from __future__ import annotations
 
@@ -38,7 +46,9 @@ RULE = ('seeded cases. sdp: (record table, per-client MTU, server MTU, 1-3 concu
         'record, or >= 2 clients ran concurrently; distinct = table shape + MTUs + transaction list. avdtp/avctp: '
         '(payload length, MTU / fragment sizes, fault kind); non-trivial when the message needed >= 2 packets. stream: '
         'operation sequence (all sequences up to the enumerated length, then random ones); non-trivial when it has an '
-        'operation that is illegal in the state it is issued in or >= 3 legal transitions; distinct = mode + sequence')
+        'operation that is illegal in the state it is issued in or >= 3 legal transitions; distinct = mode + sequence. '
+        'stream-refuse: seeded walks of 6-14 legal procedures, 60% of them refused by the peer first (application reject, '
+        'SEP in use); distinct = sequence of (procedure, way refused)')
 ASSUMPTIONS = [
     'search patterns and attribute-id lists are generated as the SDP spec requires a client to send them (ids ascending, '
     'ranges not overlapping) and sized so that the request fits the server MTU and the answer needs no more responses '
@@ -49,6 +59,9 @@ ASSUMPTIONS = [
     'abort in IDLE may be answered either way as long as both ends stay IDLE',
     'the initiator-side abort is Stream.abort() when the class has one, otherwise stream.remote_endpoint.abort(), the '
     'only initiator-side abort the API offers',
+    'stream-refuse: a procedure the peer refuses raises ProtocolError with the peer\'s error code at the caller; the refused '
+    'source stream stays usable for the same procedure; abort is not used (no initiator-side Stream API, see known findings); '
+    'whether the local media pump was stopped before a refused suspend is not judged',
     'no loss on the virtual link; broken fragment trains are injected at the assembler or written by the harness into '
     'the channel',
 ]
@@ -57,13 +70,37 @@ MIN_EVENTS = {
               'sdp_partial_pattern_transactions': 600, 'sdp_concurrent_client_cases': 150, 'sdp_wire_responses': 7000,
               'avdtp_chan_messages': 250, 'avdtp_chan_fragmented': 80, 'avdtp_asm_good_after_fault': 5000,
               'avctp_asm_fragmented_good': 5000, 'avctp_asm_good_after_fault': 4000, 'avctp_chan_messages': 60,
-              'stream_ops': 50000, 'stream_illegal_ops': 30000, 'stream_state_comparisons': 50000},
+              'stream_ops': 50000, 'stream_illegal_ops': 30000, 'stream_state_comparisons': 50000,
+              'sdp_attribute_values_compared': 10000, 'sdp_records_with_boundary_attribute': 1000,
+              'sdp_leaf_values_compared_sint_8_negative': 300, 'sdp_leaf_values_compared_sint_16_negative': 300,
+              'sdp_leaf_values_compared_sint_32_negative': 300, 'sdp_leaf_values_compared_sint_64_negative': 300,
+              'sdp_leaf_values_compared_sint_128_negative': 300, 'sdp_leaf_values_compared_sint_128': 150,
+              'sdp_leaf_values_compared_uint_128': 300, 'sdp_leaf_values_compared_uint_64': 300,
+              'sdp_leaf_values_compared_uuid_16': 8000, 'sdp_leaf_values_compared_uuid_32': 3000,
+              'sdp_leaf_values_compared_uuid_128': 4000,
+              'stream_refuse_histories': 280, 'stream_refusals': 1200, 'stream_refusal_retries_ok': 1200,
+              'stream_refuse_final_cycles_ok': 250, 'stream_refusals_configure_app_reject': 120,
+              'stream_refusals_configure_sep_in_use': 120, 'stream_refusals_open_app_reject': 200,
+              'stream_refusals_start_app_reject': 170, 'stream_refusals_suspend_app_reject': 100,
+              'stream_refusals_close_app_reject': 150, 'stream_refusals_reconfigure_app_reject': 80},
     'thorough': {'sdp_transactions': 30000, 'sdp_continued_transactions': 8000, 'sdp_boundary_transactions': 4000,
                  'sdp_partial_pattern_transactions': 12000, 'sdp_concurrent_client_cases': 3000,
                  'sdp_wire_responses': 140000, 'avdtp_chan_messages': 5000, 'avdtp_chan_fragmented': 1600,
                  'avdtp_asm_good_after_fault': 75000, 'avctp_asm_fragmented_good': 75000,
                  'avctp_asm_good_after_fault': 60000, 'avctp_chan_messages': 600, 'stream_ops': 500000,
-                 'stream_illegal_ops': 300000, 'stream_state_comparisons': 500000},
+                 'stream_illegal_ops': 300000, 'stream_state_comparisons': 500000,
+                 'sdp_attribute_values_compared': 150000, 'sdp_records_with_boundary_attribute': 15000,
+                 'sdp_leaf_values_compared_sint_8_negative': 4500, 'sdp_leaf_values_compared_sint_16_negative': 4500,
+                 'sdp_leaf_values_compared_sint_32_negative': 4500, 'sdp_leaf_values_compared_sint_64_negative': 4500,
+                 'sdp_leaf_values_compared_sint_128_negative': 4500, 'sdp_leaf_values_compared_sint_128': 2000,
+                 'sdp_leaf_values_compared_uint_128': 4500, 'sdp_leaf_values_compared_uint_64': 4500,
+                 'sdp_leaf_values_compared_uuid_16': 120000, 'sdp_leaf_values_compared_uuid_32': 45000,
+                 'sdp_leaf_values_compared_uuid_128': 60000,
+                 'stream_refuse_histories': 4200, 'stream_refusals': 18000, 'stream_refusal_retries_ok': 18000,
+                 'stream_refuse_final_cycles_ok': 3700, 'stream_refusals_configure_app_reject': 1800,
+                 'stream_refusals_configure_sep_in_use': 1800, 'stream_refusals_open_app_reject': 3000,
+                 'stream_refusals_start_app_reject': 2500, 'stream_refusals_suspend_app_reject': 1500,
+                 'stream_refusals_close_app_reject': 2200, 'stream_refusals_reconfigure_app_reject': 1200},
 }
 CASE_TIMEOUT = 600
 SHARD_TIMEOUT = {'quick': 900, 'thorough': 7200}
@@ -106,6 +143,7 @@ def plan(tier, seed):
         for i in range(24 if q else 480):
             st.append({'kind': 'stream', 'mode': mode, 'random': 30, 'seed': base + 7919 + i})
     groups.append(st)
+    groups.append([{'kind': 'stream-refuse', 'seed': base + i, 'histories': 10} for i in range(32 if q else 480)])
     # interleave so that round-robin sharding spreads the heavy kinds
     cases = []
     iters = [iter(g) for g in groups]
@@ -152,11 +190,11 @@ def gen_scalar(rng, uni, uuid_p):
         return ('uuid',) + rng.choice(uni)
     k = rng.choice(['uint', 'uint', 'sint', 'text', 'text', 'bool', 'nil', 'url'])
     if k == 'uint':
-        s = rng.choice([1, 2, 2, 4, 8])
-        return ('uint', s, rng.choice([0, 1, (1 << (8 * s)) - 1, rng.getrandbits(8 * s)]))
+        s = rng.choice([1, 2, 2, 4, 8, 16])
+        return ('uint', s, rng.choice([0, 1, (1 << (8 * s)) - 1, 1 << (8 * s - 1), rng.getrandbits(8 * s)]))
     if k == 'sint':
-        s = rng.choice([1, 2, 4, 8])
-        return ('sint', s, rng.choice([0, -1, -(1 << (8 * s - 1)), (1 << (8 * s - 1)) - 1]))
+        s = rng.choice([1, 2, 4, 8, 16])
+        return ('sint', s, rng.choice([0, -1, -(1 << (8 * s - 1)), (1 << (8 * s - 1)) - 1, -rng.getrandbits(8 * s - 1) - 1]))
     if k == 'text':
         n = rng.choice([0, 1, 5, 17, 40, rng.randint(0, 90)])
         return ('text', bytes(rng.getrandbits(8) for _ in range(n)))
@@ -165,6 +203,31 @@ def gen_scalar(rng, uni, uuid_p):
     if k == 'url':
         return ('url', 'http://' + 'a' * rng.randint(0, 12) + '/é'[:rng.randint(0, 2)])
     return ('nil',)
+
+
+BOUNDARY_ID = 0x0301
+
+
+def boundary_scalars(uni):
+    """Every scalar type x every width at its boundary values."""
+    out = [('nil',), ('bool', True), ('bool', False), ('text', b''), ('text', bytes(range(256))), ('url', ''), ('url', 'http://é/')]
+    for s in (1, 2, 4, 8, 16):
+        bits = 8 * s
+        out += [('uint', s, 0), ('uint', s, (1 << bits) - 1), ('uint', s, 1 << (bits - 1)),
+                ('sint', s, -1), ('sint', s, -(1 << (bits - 1))), ('sint', s, (1 << (bits - 1)) - 1), ('sint', s, 0),
+                ('sint', s, -(1 << (bits - 1)) + 1), ('sint', s, -(0x5A << (bits - 8)) - 3 if s > 1 else -0x5A)]
+    out += [('uuid', 2, 0), ('uuid', 2, 0xFFFF), ('uuid', 4, 0xFFFFFFFF), ('uuid', 4, 0x10000), ('uuid', 16, (1 << 128) - 1),
+            ('uuid', 16, 1 << 127)]
+    out += [('uuid',) + u for u in uni[:2]]
+    return out
+
+
+def boundary_element(rng, uni):
+    """Some 6-14 boundary scalars, directly and nested in sequences and alternatives."""
+    pool = boundary_scalars(uni)
+    picks = rng.sample(pool, rng.randint(6, 14))
+    k = len(picks) // 3
+    return ('seq', picks[:k] + [('alt', picks[k:2 * k] + [('seq', picks[2 * k:])])])
 
 
 def gen_element(rng, uni, depth, uuid_p=0.35):
@@ -200,6 +263,8 @@ def gen_record(rng, uni, handle, common):
         aid = rng.choice(ID_POINTS[2:])
         if aid not in attrs and aid != PAD_ID:
             attrs[aid] = gen_element(rng, uni, 3)
+    if rng.random() < 0.3 and BOUNDARY_ID not in attrs:
+        attrs[BOUNDARY_ID] = boundary_element(rng, uni)
     items = list(attrs.items())
     if rng.random() < 0.4:
         rng.shuffle(items)          # storage order is the application's business
@@ -471,9 +536,64 @@ def same_value(got_bytes: bytes, want_el) -> bool:
         return False
 
 
+def value_view(el):
+    """What the application SEES in a data element the client API returned: its public fields (type, value,
+    value_size), read field by field into the reference's tuple form. Nothing of bumble's parser / serialiser runs here;
+    the serialised form of a parsed element is a cached copy of the received bytes and says nothing about .value."""
+    t = int(el.type)
+    if t == rs.T_NIL:
+        return ('nil',) if el.value is None else ('nil', repr(el.value))
+    if t in (rs.T_UINT, rs.T_SINT):
+        return ('uint' if t == rs.T_UINT else 'sint', el.value_size, el.value)
+    if t == rs.T_UUID:
+        raw = bytes(el.value.uuid_bytes)            # little-endian in core.UUID
+        return ('uuid', len(raw), int.from_bytes(raw, 'little'))
+    if t == rs.T_TEXT:
+        return ('text', bytes(el.value))
+    if t == rs.T_BOOL:
+        return ('bool', el.value)
+    if t == rs.T_URL:
+        return ('url', el.value)
+    if t in (rs.T_SEQ, rs.T_ALT):
+        return ('seq' if t == rs.T_SEQ else 'alt', tuple(value_view(e) for e in el.value))
+    return ('unknown-type', t)
+
+
+def first_value_difference(got, want, path='value'):
+    """(class of the first leaf that differs, text) between two normalised elements."""
+    if got[0] != want[0]:
+        return f'{want[0]}-returned-as-{got[0]}', f'{path}: a {want[0]} came back as a {got[0]}'
+    if got[0] in ('seq', 'alt'):
+        if len(got[1]) != len(want[1]):
+            return f'{got[0]}-length', f'{path}: {len(got[1])} children, want {len(want[1])}'
+        for i, (g_, w_) in enumerate(zip(got[1], want[1])):
+            d = first_value_difference(g_, w_, f'{path}/{got[0]}[{i}]')
+            if d:
+                return d
+        return None
+    if want[0] in ('uint', 'sint', 'uuid'):
+        k = f'{want[0]}_{want[1] * 8}' + ('_negative' if want[0] == 'sint' and want[2] < 0 else '')
+        LEAVES[k] = LEAVES.get(k, 0) + 1
+    if got == want and all(type(a) is type(b) for a, b in zip(got, want)):
+        return None
+    if got[0] in ('uint', 'sint', 'uuid'):
+        w = want[1]
+        sign = '/negative' if want[0] == 'sint' and want[2] < 0 else ''
+        return (f'{want[0]}-{w * 8}{sign}',
+                f'{path}: {want[0]} of {w} octets holding {want[2]} came back as value {got[2]!r} (size {got[1]!r})')
+    return want[0], f'{path}: {want!r:.80} came back as {got!r:.80}'
+
+
 def attrs_of(lst):
-    """client API result -> [(id, serialised value)]"""
-    return [(int(a.id), bytes(a.value)) for a in lst]
+    """client API result -> [(id, serialised value, value as the application sees it)]"""
+    out = []
+    for a in lst:
+        try:
+            view = value_view(a.value)
+        except Exception as e:      # noqa: BLE001 — the judged object may be malformed in any way
+            view = ('unreadable', f'{type(e).__name__}: {e}')
+        out.append((int(a.id), bytes(a.value), view))
+    return out
 
 
 def cmp_attr_list(got, want):
@@ -483,13 +603,23 @@ def cmp_attr_list(got, want):
         if sorted(gi) == sorted(wi):
             return 'order', f'ids {gi} not ascending as {wi}'
         return 'ids-differ', f'ids got {[hex(x) for x in gi]} want {[hex(x) for x in wi]}'
-    for (aid, gb), (_a, we) in zip(got, want):
+    for (aid, gb, _gv), (_a, we) in zip(got, want):
         if not same_value(gb, we):
             wb = rs.enc(we)
             n = next((i for i in range(min(len(gb), len(wb))) if gb[i] != wb[i]), min(len(gb), len(wb)))
             return 'value-differs', (f'attribute {aid:#06x}: got {len(gb)} bytes, want {len(wb)}; first difference at '
                                      f'offset {n}: got {gb[n:n + 12].hex()} want {wb[n:n + 12].hex()}')
+    # the bytes are right: the VALUES the application reads out of the returned elements must be too
+    for (aid, _gb, gv), (_a, we) in zip(got, want):
+        VALUE_COMPARISONS[0] += 1
+        d = first_value_difference(gv, rs.norm(we))
+        if d:
+            return f'parsed-value-differs/{d[0]}', f'attribute {aid:#06x}: the bytes match but {d[1]}'
     return None
+
+
+VALUE_COMPARISONS = [0]
+LEAVES: dict = {}
 
 
 def search_mismatch_class(records, pattern, extra, missing):
@@ -764,6 +894,12 @@ async def sdp_case(case, r: R):
                   f'expected lists not returned: {[hex(h) for h, _ in unmatched][:5]}')
     if n > 1:
         r.ev('sdp_concurrent_client_cases')
+    r.ev('sdp_attribute_values_compared', VALUE_COMPARISONS[0])
+    VALUE_COMPARISONS[0] = 0
+    for k, v in LEAVES.items():
+        r.ev(f'sdp_leaf_values_compared_{k}', v)
+    LEAVES.clear()
+    r.ev('sdp_records_with_boundary_attribute', sum(1 for attrs in records.values() if any(a == BOUNDARY_ID for a, _v in attrs)))
     r.ev('sdp_tx_dropped_over_watchdog', g['dropped'])
     if g['tuned']:
         r.ev('sdp_tuned_cases')
@@ -1561,6 +1697,230 @@ async def stream_case(case, r: R):
         r.bad(f'stream/{mode}/exception-in-stack', f'{where}: {e}')
     r.sched.add(rg.schedule_signature)
 
+# =============================================================================
+# AVDTP stream procedures REFUSED by the peer
+# =============================================================================
+REFUSE_HOOKS = {'configure': 'on_set_configuration_command', 'open': 'on_open_command', 'start': 'on_start_command',
+                'suspend': 'on_suspend_command', 'close': 'on_close_command', 'reconfigure': 'on_reconfigure_command'}
+REFUSE_NEXT = {rs.IDLE: ['configure'], rs.CONFIGURED: ['open'], rs.OPEN: ['start', 'start', 'close', 'reconfigure'],
+               rs.STREAMING: ['suspend', 'suspend', 'close']}
+REFUSE_AFTER = dict(rs.STREAM_TABLE)
+REFUSE_AFTER[(rs.OPEN, 'reconfigure')] = rs.OPEN
+
+
+async def stream_refuse_case(case, r: R):
+    """The initiator walks a stream along LEGAL procedures through the Stream API (configure, open, start, suspend,
+    close; reconfigure as a raw command) while the peer REFUSES some of them: its sink application answers the command
+    with the signal's reject, or (configure) the sink end-point is held by ANOTHER local source at that moment. A refused
+    procedure raises at the caller and changes neither the LOCAL stream state nor the remote one (the refused source is
+    not in use); the same procedure, the peer now willing, then succeeds with both ends in the next state; every history
+    ends with a whole successful cycle on the same end-points."""
+    from bumble import a2dp, avdtp, core
+    from vlib import rig as vrig
+
+    rng = random.Random(case['seed'] ^ 0x4EF5)
+    vrig.seed_entropy(case['seed'])
+    rg = vrig.Rig(2, seed=case['seed'], max_delay=rng.choice([0, 0, 1, 2]), classic=True)
+    await rg.power_on()
+    ca, cb = await rg.connect_classic(0, 1)
+    servers = []
+    listener = avdtp.Listener.for_device(rg.devices[1])
+    listener.on('connection', servers.append)
+    client = await vloop.vwait(avdtp.Protocol.connect(ca))
+    await rg.quiesce()
+    server = servers[0]
+    State = avdtp.State
+    err = avdtp.AVDTP_UNSUPPORTED_CONFIGURATION_ERROR
+    armed = {}          # (sink seid, op) -> True: the sink application refuses the next such command
+    refusals_made = []
+
+    def install(sink):
+        def reject_for(op):
+            if op in ('configure', 'reconfigure'):
+                cls = avdtp.Set_Configuration_Reject if op == 'configure' else avdtp.Reconfigure_Reject
+                return cls(service_category=avdtp.AVDTP_MEDIA_CODEC_SERVICE_CATEGORY, error_code=err)
+            if op in ('start', 'suspend'):
+                return (avdtp.Start_Reject if op == 'start' else avdtp.Suspend_Reject)(sink.seid, err)
+            return (avdtp.Open_Reject if op == 'open' else avdtp.Close_Reject)(err)
+        for op, method in REFUSE_HOOKS.items():
+            stock = getattr(sink, method)
+
+            async def hook(*a, _stock=stock, _op=op, **kw):
+                if armed.pop((sink.seid, _op), None):
+                    refusals_made.append((sink.seid, _op))
+                    return reject_for(_op)
+                return await _stock(*a, **kw)
+            setattr(sink, method, hook)
+
+    def nm(st):
+        return State(st).name
+
+    for h in range(case.get('histories', 10)):
+        if len(server.local_endpoints) >= 58 or len(client.local_endpoints) >= 58:
+            break
+        sink = server.add_sink(sbc_caps(avdtp, a2dp, True))
+        install(sink)
+        src_a = client.add_source(sbc_caps(avdtp, a2dp, False), None)
+        src_b = client.add_source(sbc_caps(avdtp, a2dp, False), None)
+        proxy = avdtp.StreamEndPointProxy(client, sink.seid)
+        trace = []
+        streams = {}
+
+        def local(src):
+            return nm(src.stream.state) if src.stream is not None else rs.IDLE
+
+        def remote():
+            return nm(sink.stream.state) if sink.stream is not None else rs.IDLE
+
+        async def do(src, op):
+            """One procedure through the initiator API. Returns 'ok' or 'refused:<error>'."""
+            try:
+                if op == 'configure':
+                    streams[src.seid] = await vloop.vwait(client.create_stream(src, proxy))
+                elif op == 'open':
+                    await vloop.vwait(streams[src.seid].open())
+                elif op == 'start':
+                    await vloop.vwait(streams[src.seid].start())
+                elif op == 'suspend':
+                    await vloop.vwait(streams[src.seid].stop())
+                elif op == 'close':
+                    await vloop.vwait(streams[src.seid].close())
+                else:
+                    await vloop.vwait(client.send_command(avdtp.Reconfigure_Command(sink.seid, [sbc_caps(avdtp, a2dp, False)])))
+                out = 'ok'
+            except core.ProtocolError as e:
+                out = f'refused:ProtocolError({e.error_code:#x})'
+            except core.InvalidStateError as e:
+                out = f'refused-locally:{e}'
+            await rg.quiesce()
+            return out
+
+        def ctx():
+            return f'history {trace}'
+
+        async def step(src, op, model, how):
+            """`op` (legal in `model`), refused by the peer in the way `how` (or not refused when None), then done
+            for good. Returns the new model state or None when the history must stop."""
+            r.ev('stream_refuse_steps')
+            if how is not None:
+                other_stream = None
+                if how == 'sep-in-use':
+                    # the sink is taken by the other source at that moment
+                    if await do(src_b, 'configure') != 'ok':
+                        r.bad('stream/refused/configure/sep-in-use/other-source-cannot-configure', ctx())
+                        return None
+                    other_stream = sink.stream
+                    trace.append(('configure-by-other-source', 'ok', local(src_b), remote()))
+                else:
+                    armed[(sink.seid, op)] = True
+                before = (local(src), remote())
+                out = await do(src, op)
+                armed.pop((sink.seid, op), None)
+                after = (local(src), remote())
+                trace.append((op, how, out, after))
+                r.ev('stream_refusals')
+                r.ev(f'stream_refusals_{op}_{how.replace("-", "_")}')
+                r.ev('stream_state_comparisons', 2)
+                r.ev('oracle_evals', 3)
+                key = f'stream/refused/{op}/{how}'
+                if out == 'ok':
+                    r.bad(f'{key}/not-reported-to-caller', f'the peer refused {op}, the call returned normally; {ctx()}')
+                    return None
+                if out != f'refused:ProtocolError({0x13 if how == "sep-in-use" else int(err):#x})':
+                    r.bad(f'{key}/wrong-error', f'{out}; {ctx()}')
+                    return None
+                if after[0] != before[0]:
+                    r.bad(f'{key}/local-state-changed/from-{before[0]}-to-{after[0]}',
+                          f'{op} refused by the peer ({out}): the LOCAL stream went from {before[0]} to {after[0]} '
+                          f'(remote {before[1]} -> {after[1]}); {ctx()}')
+                    return None
+                if after[1] != before[1] or (other_stream is not None and sink.stream is not other_stream):
+                    r.bad(f'{key}/remote-state-changed/from-{before[1]}-to-{after[1]}',
+                          f'{op} refused by the peer ({out}): remote {before[1]} -> {after[1]}; {ctx()}')
+                    return None
+                if bool(src.in_use) != (before[0] != rs.IDLE):
+                    r.bad(f'{key}/in-use-after-refusal', f'source in_use={src.in_use} in state {before[0]}; {ctx()}')
+                    return None
+                if how == 'sep-in-use':
+                    # the other source lets go of the sink (open, close): the sink is free again
+                    for op_b in ('open', 'close'):
+                        if await do(src_b, op_b) != 'ok':
+                            r.bad(f'stream/refused/configure/sep-in-use/other-source-cannot-{op_b}', ctx())
+                            return None
+                    if (local(src_b), remote()) != (rs.IDLE, rs.IDLE):
+                        r.bad('stream/refused/configure/sep-in-use/other-source-not-idle-after-close',
+                              f'{local(src_b)} / {remote()}; {ctx()}')
+                        return None
+                    trace.append(('other-source-open-close', 'ok', local(src_b), remote()))
+            # the procedure itself (after a refusal: the retry)
+            out = await do(src, op)
+            after = (local(src), remote())
+            trace.append((op, None, out, after))
+            nxt = REFUSE_AFTER[(model, op)]
+            r.ev('stream_ops')
+            r.ev('stream_state_comparisons', 2)
+            r.ev('oracle_evals')
+            what = 'retry-after-refusal' if how is not None else 'legal'
+            if out != 'ok':
+                r.bad(f'stream/refused/{what}-{op}-failed/in-{model}' + (f'/{how}' if how else ''),
+                      f'{op} in {model} -> {out}; local,remote={after}; {ctx()}')
+                return None
+            if after != (nxt, nxt):
+                r.bad(f'stream/refused/{what}-{op}-wrong-state/from-{model}' + (f'/{how}' if how else ''),
+                      f'{op} in {model} accepted; local,remote={after}, expected {nxt}; {ctx()}')
+                return None
+            if how is not None:
+                r.ev('stream_refusal_retries_ok')
+            return nxt
+
+        model = rs.IDLE
+        ok = True
+        cycles = 0
+        for _ in range(rng.randint(6, 14)):
+            op = rng.choice(REFUSE_NEXT[model])
+            how = None
+            if rng.random() < 0.6:
+                how = rng.choice(['app-reject', 'sep-in-use']) if op == 'configure' else 'app-reject'
+            model = await step(src_a, op, model, how)
+            if model is None:
+                ok = False
+                break
+            if model == rs.IDLE:
+                cycles += 1
+        if ok:
+            # the whole cycle on the same end-points, nothing refused
+            if model == rs.IDLE:
+                path = ['configure', 'open', 'start', 'suspend', 'start', 'close']
+            else:
+                path = {rs.CONFIGURED: ['open', 'start', 'close'], rs.OPEN: ['start', 'suspend', 'close'],
+                        rs.STREAMING: ['suspend', 'close']}[model] + ['configure', 'open', 'start', 'close']
+            for op in path:
+                model = await step(src_a, op, model, None)
+                if model is None:
+                    ok = False
+                    break
+            if ok:
+                r.ev('stream_refuse_final_cycles_ok')
+        r.ev('stream_refuse_histories')
+        r.sig('stream-refuse', tuple((t[0], t[1]) for t in trace))
+        r.evals()
+        r.sample = {'kind': 'stream-refuse', 'trace(op,refused how,outcome,(local,remote))': [list(map(str, t)) for t in trace[:14]]}
+        # leave nothing behind (not judged)
+        try:
+            for src in (src_a, src_b):
+                if src.stream is not None and src.stream.rtp_channel is not None:
+                    await vloop.vwait(src.stream.rtp_channel.disconnect())
+                    src.stream.rtp_channel = None
+            if sink.stream is not None and sink.stream.state != State.IDLE:
+                await vloop.vwait(client.abort(sink.seid))
+            server.channel_acceptor = None
+            await rg.quiesce()
+        except Exception:       # noqa: BLE001
+            pass
+    for where, e in rg.exceptions:
+        r.bad('stream/refused/exception-in-stack', f'{where}: {e}')
+    r.sched.add(rg.schedule_signature)
+
 
 async def run_case(case, r: R):
     k = case['kind']
@@ -1584,6 +1944,8 @@ async def run_case(case, r: R):
         await avctp_chan_case(case, r)
     elif k == 'stream':
         await stream_case(case, r)
+    elif k == 'stream-refuse':
+        await stream_refuse_case(case, r)
 
 
 LEVEL_TEXT = ('Independent SDP matcher/filter (every pattern UUID, any nesting depth, ids and ranges) compared with '
@@ -1594,7 +1956,10 @@ LEVEL_TEXT = ('Independent SDP matcher/filter (every pattern UUID, any nesting d
               'reference reassembler over the wire log); AVDTP and AVCTP assemblers fed spec-built good and broken '
               'fragment trains; every AVDTP stream operation sequence up to length 5 (quick) / 6 (thorough) plus random '
               'ones to length 12, through the Stream API and as raw commands against the acceptor, against the AVDTP '
-              'state table. Held = no refuting execution observed; sampling of tables, sizes and schedules, exhaustive '
+              'state table; ~320 (quick) / ~4800 (thorough) walks of legal procedures of which ~60% are first REFUSED by the '
+              'peer (application reject, SEP in use), judged on the local and the remote state, retried, and closed by a whole '
+              'cycle. SDP results are compared value by value (type, value, size of every returned element, records holding '
+              'every scalar type x width at boundary values) as well as byte by byte. Held = no refuting execution observed; sampling of tables, sizes and schedules, exhaustive '
               'only for the enumerated operation sequences.')
 LEVEL_NOTE = ('Trusted: vlib/ref_sdp.py (data element codec, matcher, filter, AVDTP/AVCTP framing, state table), the rig '
               'taps and independent ACL reassembler, the virtual-time loop. No loss on the link: broken trains are '
